@@ -529,7 +529,11 @@ def apply(root: Any, op: list, *, catch: bool = True) -> Applied:
     """Resolve the op against the live tree and perform it through the public API."""
     ap = Applied()
     kind = op[0]
-    m = tree.resolve(root, tuple(op[1]))
+    if op[1] and op[1][0] == '@':      # a token addressed by its ordinal in the store
+        toks = list(root.token_store)
+        m = toks[op[1][1]] if op[1][1] < len(toks) else None
+    else:
+        m = tree.resolve(root, tuple(op[1]))
     if m is None:
         ap.exc = LookupError(f'path {op[1]} does not resolve')
         ap.result = 'unresolved'
